@@ -397,6 +397,37 @@ def r16_8(run, model):
     run.floor("writes to the function and method tables examined", n, 2)
 
 
+def no_import_skipped(run, model, rule):
+    """check_package / build_package: the loop over the package's imports resolves every import to an interface or returns an error"""
+    SEP = "crates/compiler/src/pipeline/separate.rs"
+    n = 0
+    for name in ("check_package", "build_package"):
+        f = model.fn(name, SEP)
+        loops = [l for l in S.find(f.body, "For") if any(True for _ in S.calls(l["body"], "load_interface_from_paths"))]
+        if not loops:
+            raise AnalysisIncomplete(f"{name}: loop that loads the interfaces of the imports not found")
+        for loop in loops:
+            n += 1
+            skips = [c for c in S.walk_no_closures(loop["body"]) if c["k"] == "Continue"]
+            conds = []
+            par = S.Parents(loop["body"])
+            for c in skips:
+                for a in par.ancestors(c):
+                    if a["k"] == "If":
+                        conds.append(S.norm_ws(run.facts.text(SEP, a["cond"]["sp"])))
+                        break
+            run.ob(rule, f"{name}|every import is resolved to an interface or rejected", not skips, site(SEP, (skips or [loop])[0]["sp"]),
+                   f"imports skipped without a diagnostic when: {conds}" if skips else "no `continue` in the loop over the imports",
+                   witness="package Lib / import Lib (a cycle of length 1) and import Builtin (no such package): `run` reports a dependency cycle / "
+                           "a missing package directory, check + build + link accept the project")
+    run.floor("import loops of the separate pipeline examined", n, 2)
+
+
+def r16_9(run, model):
+    run.rule("R16.9", "missing packages and import cycles are errors in the separate pipeline too: check_package and build_package skip no import")
+    no_import_skipped(run, model, "R16.9")
+
+
 def run(run, model):
     mir = Mir(run.facts)
     run.try_rule(r16_1, model, mir)
@@ -406,6 +437,7 @@ def run(run, model):
     run.try_rule(r16_5, model)
     run.try_rule(r16_7, model)
     run.try_rule(r16_8, model)
+    run.try_rule(r16_9, model)
     from rules import c04
     run.rule("R16.6", "a package missing from the link inputs is reported, not skipped (shared with C04 R04.8)")
     run.try_rule(c04.r04_8, model)
